@@ -29,6 +29,7 @@ type c07History struct {
 	// to the v2 package (solver harnesses over the regenerated functions)
 	Raw1, Raw2, Harness string
 	HarnessNames        []string
+	Extra               map[string]string // further files present in both versions (e.g. an external test package)
 }
 
 // c07RawFiles builds the files of one version of a raw history.
@@ -76,6 +77,12 @@ func c07RawHistories(tier string) []c07History {
 		{ID: "H22", What: "element type retyped under a three-level nested derive call",
 			Raw1: "func use(m map[string]int) []string { return deriveSort(deriveUnique(deriveKeys(m))) }\n",
 			Raw2: "func use(m map[int]int) []int { return deriveSort(deriveUnique(deriveKeys(m))) }\n", Harness: sortH("int"), HarnessNames: names},
+		{ID: "H23", What: "named key type renamed under deriveEqual(deriveSort(deriveKeys(m)), want): the old file mentions a type that no longer exists",
+			Raw1: "type Name string\n\ntype I struct{ Tags map[Name]int }\n\nfunc use(i *I, want []Name) bool { return deriveEqual(deriveSort(deriveKeys(i.Tags)), want) }\n",
+			Raw2: "type Label string\n\ntype I struct{ Tags map[Label]int }\n\nfunc use(i *I, want []Label) bool { return deriveEqual(deriveSort(deriveKeys(i.Tags)), want) }\n"},
+		{ID: "H24", What: "map retyped under a nested derive call in a directory that also has an external test package",
+			Raw1: nested("string"), Raw2: nested("int"), Harness: sortH("int"), HarnessNames: names,
+			Extra: map[string]string{"ext_test.go": "package h24_test\n\nimport \"testing\"\n\nfunc TestNothing(t *testing.T) {}\n"}},
 		{ID: "H14", What: "second derive call of the same plugin added",
 			Raw1: "type A struct{ X int }\n\nfunc eqA(a, b *A) bool { return deriveEqualA(a, b) }\n",
 			Raw2: "type A struct{ X int }\n\ntype B struct{ Y string }\n\nfunc eqA(a, b *A) bool { return deriveEqualA(a, b) }\n\nfunc eqB(a, b *B) bool { return deriveEqualB(a, b) }\n"},
@@ -227,6 +234,7 @@ func runC07(r *Runner) {
 		out[i] = res{h: h, rel: rel}
 		if h.Raw1 != "" {
 			writeFiles(dir, c07RawFiles(pkg, h.Raw1, "", nil))
+			writeFiles(dir, h.Extra)
 		} else {
 			t1, p1 := h.V1()
 			writeFiles(dir, c07Sources(pkg, t1, p1, false, h.ID))
@@ -255,6 +263,9 @@ func runC07(r *Runner) {
 		var v2files map[string]string
 		if h.Raw2 != "" {
 			v2files = c07RawFiles(pkg, h.Raw2, h.Harness, h.HarnessNames)
+			for n, c := range h.Extra {
+				v2files[n] = c
+			}
 		} else {
 			t2, p2 := h.V2()
 			v2files = c07Sources(pkg, t2, p2, true, h.ID)
@@ -313,6 +324,9 @@ func runC07(r *Runner) {
 	}
 	r.Pkgs = ok
 	r.symx(ok)
+	if r.Filter == nil {
+		c07Sweep(r)
+	}
 }
 
 // c08Repeat (C08, concrete, through the public API): the same sources generated from scratch in two
@@ -376,4 +390,79 @@ func c08Repeat(r *Runner) {
 	}
 	r.Extra["repeat_runs"] = rows
 	r.stage(fmt.Sprintf("%d fixtures generated 4 times each (2 directories, 3 runs in place) and compared byte for byte", len(fxs)))
+}
+
+// c07Sweep: "for every byte offset k the state in which derived.gen.go is the first k bytes of the output":
+// one small package (Equal over a struct, Sort over Keys of a map: a derive result that feeds another derive
+// call) is generated from scratch, then regenerated over every prefix of its own output (quick: every fifth
+// offset; thorough: every offset). Each run must exit 0 and reproduce the from-scratch bytes [concrete].
+func c07Sweep(r *Runner) {
+	src := "package sweep\n\ntype P struct {\n\tA int\n\tS []string\n}\n\nfunc eq(a, b *P) bool { return deriveEqual(a, b) }\n\nfunc keys(m map[string]int) []string { return deriveSort(deriveKeys(m)) }\n"
+	base := filepath.Join(r.S.Repo, "vxfix/c07sweep")
+	sdir := filepath.Join(base, "scratch")
+	writeFiles(sdir, map[string]string{"x.go": src})
+	if o, code, _ := runCmd(r.S.Repo, goEnv(), 2*time.Minute, r.S.Goderive, "./vxfix/c07sweep/scratch"); code != 0 {
+		r.inconsistent("truncation sweep: from-scratch generation failed: " + trunc(o, 200))
+		return
+	}
+	want, _ := os.ReadFile(filepath.Join(sdir, "derived.gen.go"))
+	stride := 5
+	if r.Tier == "thorough" {
+		stride = 1
+	}
+	var ks []int
+	for k := 0; k <= len(want); k += stride {
+		ks = append(ks, k)
+	}
+	type res struct {
+		k    int
+		code int
+		same bool
+		msg  string
+	}
+	out := make([]res, len(ks))
+	parallel(len(ks), r.Workers, func(i int) {
+		k := ks[i]
+		rel := fmt.Sprintf("vxfix/c07sweep/k%04d", k)
+		dir := filepath.Join(r.S.Repo, rel)
+		writeFiles(dir, map[string]string{"x.go": src})
+		os.WriteFile(filepath.Join(dir, "derived.gen.go"), want[:k], 0o644)
+		o, code, _ := runCmd(r.S.Repo, goEnv(), 2*time.Minute, r.S.Goderive, "./"+rel)
+		got, _ := os.ReadFile(filepath.Join(dir, "derived.gen.go"))
+		out[i] = res{k, code, bytes.Equal(got, want), trunc(strings.TrimSpace(o), 160)}
+		if code == 0 && out[i].same {
+			os.RemoveAll(dir)
+		}
+	})
+	var bad []res
+	for _, o := range out {
+		if o.code != 0 || !o.same {
+			bad = append(bad, o)
+		}
+	}
+	r.Extra["truncation_sweep"] = map[string]interface{}{"output_bytes": len(want), "offsets_tried": len(ks), "stride": stride, "failing_offsets": len(bad)}
+	r.stage(fmt.Sprintf("truncation sweep: %d prefixes of a %d-byte derived.gen.go regenerated, %d failing", len(ks), len(want), len(bad)))
+	if len(bad) == 0 {
+		return
+	}
+	// report maximal runs of consecutive failing offsets
+	for i := 0; i < len(bad); {
+		j := i
+		for j+1 < len(bad) && bad[j+1].k == bad[j].k+stride {
+			j++
+		}
+		what := fmt.Sprintf("derived.gen.go cut after %d..%d of %d bytes (%q): ", bad[i].k, bad[j].k, len(want), string(want[max(0, bad[i].k-24):bad[i].k]))
+		if bad[i].code != 0 {
+			what += fmt.Sprintf("goderive exits %d: %s", bad[i].code, bad[i].msg)
+		} else {
+			what += "the regenerated file differs from the from-scratch output"
+		}
+		if f := r.Known.matchKey(r.Spec.ID, fmt.Sprintf("sweep:%d", bad[i].k)); f != nil {
+			r.known(f, what)
+		} else {
+			dir := saveReplay(r.S, r.Spec.ID, fmt.Sprintf("vxfix/c07sweep/k%04d", bad[i].k), &Model{Harness: fmt.Sprintf("sweep_k%04d", bad[i].k)}, what)
+			r.violation(dir, what)
+		}
+		i = j + 1
+	}
 }
